@@ -2,7 +2,7 @@
    Only statements, [exact] and [Print Assumptions] live here. *)
 From Coq Require Import List Arith Bool NArith.
 From GV Require Import Base.Result Gen.TokenTypes Gen.Defs Gen.Instr Model.Parser Model.BuilderWL Model.Compile
-  Spec.WfCode Spec.Reloc Proofs.C05.Known Proofs.C05.Bounded Proofs.C05.Refuted Proofs.C20.Bounded Proofs.C20.Refuted.
+  Spec.WfCode Spec.Reloc Proofs.C05.Known Proofs.C05.Bounded Proofs.C05.Refuted Proofs.C20.Bounded Proofs.C20.Refuted Proofs.C05.Operands Proofs.C20.Frame.
 Import ListNotations.
 
 (* relocation + frame, bounded: building after another program (initial states
@@ -39,10 +39,25 @@ Theorem C20_K2_refuted :
 Proof. exact K2_refuted20. Qed.
 Print Assumptions C20_K2_refuted.
 
+(* frame, inductive, for EVERY proper tree and EVERY initial state: the builder
+   never asks for a write to a jump-table entry below the initial jump-table
+   length (the model's E_foreign_jump outcome is unreachable), and every jump
+   operand / expression value of the new code, and the reported entry, name
+   jump entries of the new range *)
+Theorem C20_no_foreign_jump_all_trees : forall nodes root t init lit,
+  tree_of nodes root = Some t -> compile init lit t <> Err E_foreign_jump.
+Proof. intros nodes root t init lit Ht. exact (compile_not_foreign nodes init lit t (tree_of_in nodes root t Ht)). Qed.
+Print Assumptions C20_no_foreign_jump_all_trees.
+
+Theorem C20_own_jump_refs_all_trees : forall nodes root t init lit r,
+  tree_of nodes root = Some t -> compile init lit t = Ok r ->
+  forallb (own_ref (i_jump_len init) (i_jump_len init + length (cj (fst r)))) (ci (fst r)) = true /\
+  in_range (i_jump_len init) (i_jump_len init + length (cj (fst r))) (snd r) = true.
+Proof. intros nodes root t init lit r Ht Hc. exact (compile_own_refs nodes init lit t r (tree_of_in nodes root t Ht) Hc). Qed.
+Print Assumptions C20_own_jump_refs_all_trees.
+
 (* full statements (for every proper tree and every initial state), on the tree
    compiler; see Proofs/C20 for what is proved of them *)
-Definition code_of_compile (r : cst * nat) : code := mkCode (ci (fst r)) (cm (fst r)) (cj (fst r)) (snd r).
-
 Definition C20_frame_full_statement : Prop :=
   forall nodes root t init lit r,
     tree_of nodes root = Some t -> ~ Known_C05_K1 init t -> ~ Known_C05_K2 t ->
